@@ -594,7 +594,6 @@ theorem Doc.Fresh.not_has {d : Doc} (h : d.Fresh) (j : Nat) (hj : d.next ≤ j) 
 
 def Layer.mapNodes (g : Node → Node) (l : Layer) : Layer :=
   { l with scope := l.scope.map g, order := l.order.map g }
-def Layer.nodes (l : Layer) : List Node := l.scope ++ l.order
 
 def Doc.mapNodes (g : Node → Node) (d : Doc) : Doc :=
   { d with
@@ -604,11 +603,6 @@ def Doc.mapNodes (g : Node → Node) (d : Doc) : Doc :=
     stOrder := d.stOrder.map g
     stack := d.stack.map (Layer.mapNodes g)
     topScope := d.topScope.map (·.map g) }
-
-/-- every root node the document holds -/
-def Doc.nodes (d : Doc) : List Node :=
-  d.target :: (d.scope ++ d.stOrder ++ d.stack.flatMap Layer.nodes ++ d.topScope.getD [] ++
-    d.scratch.toList)
 
 theorem Layer.updBind_eq_mapNodes (id : Nat) (v : Node) (l : Layer) :
     l.updBind id v = l.mapNodes (Node.updBind id v) := by
